@@ -85,6 +85,26 @@ def boundary_form(v, facts=()):
     return False, "offset %+d from a boundary" % c
 
 
+CHAR_UNIT = ('cursor0', 'chars@')
+BYTE_UNIT = ('valid0', 'cap(', 'len(', 'byteidx@', 'pos', 'prefix@', 'merged@', 'ac0')
+
+
+def unit_mix(*forms):
+    """(char atoms, byte atoms) occurring together in the given linear forms: the editor's cursor and the results of
+    `char_count` count *characters*, lengths / capacities / byte offsets count *bytes*; a comparison, sum or index that
+    mixes them is only right for one-byte characters"""
+    ch, by = set(), set()
+    for f_ in forms:
+        if f_ is None:
+            continue
+        for a, k in f_[0]:
+            if a.startswith(CHAR_UNIT):
+                ch.add(a)
+            elif a.startswith(BYTE_UNIT):
+                by.add(a)
+    return (sorted(ch), sorted(by)) if ch and by else None
+
+
 class Site:
     __slots__ = ('key', 'fn', 'kind', 'span', 'verdicts', 'goals')
 
@@ -335,6 +355,7 @@ class E3(object):
         self.keymap = {}
         self.ctx = ''
         self.notes = []
+        self.mixed = []       # (function, what, char atoms, byte atoms)
 
     # ---------- facts ----------
     def facts_of(self, w):
@@ -474,10 +495,19 @@ class E3(object):
             return self.add(w, *facts), ('adt', old[1], old[2], tuple(fs))
         return w, TOP
 
+    def note_mix(self, I, what, *forms):
+        m = unit_mix(*forms)
+        if m:
+            fn = getattr(I, '_fn', None)
+            rec = (fn.npath if fn is not None else '?', what, tuple(m[0]), tuple(m[1]))
+            if rec not in self.mixed:
+                self.mixed.append(rec)
+
     def on_symbranch(self, I, w, v, truth):
         a, b = L(v[2]), L(v[3])
         if a is None or b is None:
             return w
+        self.note_mix(I, 'comparison', a, b)
         op = v[1]
         if not truth:
             op = {'Eq': 'Ne', 'Ne': 'Eq', 'Lt': 'Ge', 'Ge': 'Lt', 'Gt': 'Le', 'Le': 'Gt'}[op]
@@ -534,6 +564,7 @@ class E3(object):
                     site.goals.append("index %s < len %s [%s]" % (sorted(idx[1]), sorted(ln[1]), self.ctx))
                 return w
             a, b = L(idx), L(ln)
+            self.note_mix(I, 'index', a, b)
             return self.oblige(w, site, [fm.lt(a, b)] if a is not None and b is not None else None, "index < len")
         if kind == 'Overflow':
             op = m['op']
@@ -699,6 +730,7 @@ class E3(object):
         nm = rng[1].rsplit('::', 1)[-1]
         ll = L(ln)
         self.last_nb = None
+        self.note_mix(self._I, 'range index', ll, *[L(x) for x in rng[3]])
         for x in rng[3]:
             okb, why = boundary_form(x, w.st) if (is_symbolic(x) or x[0] == 'int') else (False, 'unknown index')
             if x[0] == 'int' and int_singleton(x) is not None:
@@ -737,6 +769,7 @@ class E3(object):
         rp = ci.nresolved or ''
         name = ci.name
         fn = ci.fn
+        self._I = I
         tr = strip_crate(ci.trait)
         # ---- Buffer trait on the type parameter
         if tr == 'buffer::Buffer' and args:
@@ -898,6 +931,11 @@ class E3(object):
         # ---- helper contracts (verified separately in check_helper_contracts)
         if rp.endswith('utils::char_byte_index'):
             ln = self.slc_len(I, w, args[0])
+            k_ = L(args[1])
+            if k_ is not None and any(a.startswith(BYTE_UNIT) for a, c_ in k_[0]):
+                rec = (fn.npath, 'character index given to char_byte_index', (), tuple(a for a, c_ in k_[0] if a.startswith(BYTE_UNIT)))
+                if rec not in self.mixed:
+                    self.mixed.append(rec)
             w0 = w
             w, a = self.new_atom(w, 'byteidx', ci)
             facts = []
